@@ -496,3 +496,27 @@ def result_dropped(F, call, var, sinks_pred):
     return bad
 
 
+
+
+def cases(fnode, expr, at_node=None, depth=0):
+    """Case split of the value of expr: [(value expr, [atoms under which it is the value])].
+    Splits conditional expressions and follows local names to their (possibly several, guarded) definitions."""
+    expr = strip_cast(expr)
+    if depth > 5:
+        return [(expr, [])]
+    if isinstance(expr, ast.IfExp):
+        out = []
+        for v, pol in ((expr.body, True), (expr.orelse, False)):
+            for v2, at in cases(fnode, v, at_node, depth + 1):
+                out.append((v2, atoms(expr.test, pol) + at))
+        return out
+    if isinstance(expr, ast.Name):
+        defs = [(st, v) for st, v in assigned_value(fnode, expr.id) if isinstance(st, ast.Assign) and not reads_name(v, expr.id)]
+        if defs:
+            out = []
+            for st, v in defs:
+                base = guard_atoms(st)
+                for v2, at in cases(fnode, v, st, depth + 1):
+                    out.append((v2, base + at))
+            return out
+    return [(expr, [])]
